@@ -166,7 +166,7 @@ fn gen_ordering(rng: &mut Rng, names: &[String]) -> String {
 }
 
 fn gen_inv(rng: &mut Rng) -> Inv {
-    let pool: &[&str] = if rng.chance(1, 4) { &gen::FANCY_NAMES } else { &gen::PLAIN_NAMES };
+    let pool: &[&str] = if rng.chance(1, 4) { &gen::FANCY_NAMES } else if rng.chance(1, 8) { &gen::MARK_NAMES } else { &gen::PLAIN_NAMES };
     let k = 1 + rng.usize(6);
     let mut names: Vec<&str> = pool.to_vec();
     rng.shuffle(&mut names);
@@ -189,7 +189,7 @@ fn gen_inv(rng: &mut Rng) -> Inv {
     let mode = rng.below(10);
     Inv {
         text,
-        channel: rng.below(3) as u8,
+        channel: rng.below(6) as u8,
         ordering,
         filter,
         t: mode != 1,
@@ -209,7 +209,7 @@ fn job(ctx: &Ctx, job: usize, iters: u64) -> Stats {
         let Some(base) = check_inv(ctx, &mut st, &inv, &tag) else { continue };
         // the same formula through the other channels and with -b N: identical stdout
         if i % 3 == 0 {
-            for ch in 0..3u8 {
+            for ch in 0..6u8 {
                 if ch == inv.channel {
                     continue;
                 }
@@ -377,15 +377,30 @@ pub fn run(ctx: &Ctx) -> (Stats, Spec) {
         let inv = Inv { text: text.into(), ordering: Some(ord.into()), t: true, v: true, r: true, ..Default::default() };
         check_inv(ctx, &mut st, &inv, &format!("fixed-{}", k));
     }
+    // long outputs (tens of KiB: more than any output buffer), with the table and the -v listing
+    // in one run — parity and threshold functions of 8-10 variables have 2^n or many rows
+    for n in ctx.tier.pick(vec![8usize, 9], vec![8, 9, 10, 11]) {
+        let names: Vec<String> = (0..n).map(|i| format!("p{}", i)).collect();
+        for (j, text) in [names.join(" ^ "), format!("[{}] >= {}", names.join(", "), n / 2), format!("({}) <=> ({})", names[..n / 2].join(" ^ "), names[n / 2..].join(" ^ "))].iter().enumerate() {
+            for (f, v) in [(None, true), (Some("t"), true), (Some("f"), true), (None, false)] {
+                k += 1;
+                let inv = Inv { text: text.clone(), filter: f.map(|s: &str| s.to_string()), t: true, v, channel: ((k + j) % 6) as u8, ..Default::default() };
+                check_inv(ctx, &mut st, &inv, &format!("long-{}", k));
+                st.bump("long_outputs");
+            }
+        }
+    }
     // ordering files larger than any I/O buffer: the names come after ~20 KiB of comments / blank lines
     for (i, pad) in [format!("\"{}\"\n", "o".repeat(20_000)), "\n".repeat(12_000), "\"c\" ; \n".repeat(2_500)].iter().enumerate() {
-        k += 1;
-        let inv = Inv { text: "(a ^ b) | (c & -d)".into(), ordering: Some(format!("d {} c\n{}b a", pad, pad)), t: true, r: true, channel: (i % 3) as u8, ..Default::default() };
-        check_inv(ctx, &mut st, &inv, &format!("bigord-{}", k));
-        st.bump("large_ordering_files");
+        for ch in [i as u8, i as u8 + 3] {
+            k += 1;
+            let inv = Inv { text: "(a ^ b) | (c & -d)".into(), ordering: Some(format!("d {} c\n{}b a", pad, pad)), t: true, r: true, channel: ch, ..Default::default() };
+            check_inv(ctx, &mut st, &inv, &format!("bigord-{}", k));
+            st.bump("large_ordering_files");
+        }
     }
     let spec = Spec {
-        rule: "random formulas (<= 6 names, plain and non-ASCII / primed / long names, 0..6 free variables) x filter in every accepted spelling or absent x channel (--evaluate, file, stdin) x ordering file (absent, permutation, subset, superset with unused names, repeats, separators incl. keywords / comments / numbers) x {-t, -v, -t -v, -m, -b N, -r}; tables with 31..130 columns (or / and / implication chains; rows judged by three-valued evaluation, pairwise disjointness and an exact 128-bit count of covered assignments); every third case is re-run through the other two channels and every fourth with -b 1 and -b 2 (stdout must be identical). distinct = (formula, option set); non-trivial = >= 2 free variables and >= 3 printed rows.".into(),
+        rule: "random formulas (<= 6 names, plain and non-ASCII / primed / long names, 0..6 free variables) x filter in every accepted spelling or absent x channel (six: --evaluate, regular file, stdin at once / in small pieces, a named pipe or /dev/stdin as the file; the ordering file through a named pipe too; long outputs of 8-11-variable parity / threshold functions with -t and -v in one run; --evaluate, file, stdin) x ordering file (absent, permutation, subset, superset with unused names, repeats, separators incl. keywords / comments / numbers) x {-t, -v, -t -v, -m, -b N, -r}; tables with 31..130 columns (or / and / implication chains; rows judged by three-valued evaluation, pairwise disjointness and an exact 128-bit count of covered assignments); every third case is re-run through the other two channels and every fourth with -b 1 and -b 2 (stdout must be identical). distinct = (formula, option set); non-trivial = >= 2 free variables and >= 3 printed rows.".into(),
         assumptions: vec![
             "with -m the printed diagram is a model: rows must partition and true rows must satisfy the formula (their number is C07's subject)".into(),
             "rejected filter spellings and inputs outside the reference's evaluable range are not judged here (C12)".into(),
@@ -396,6 +411,7 @@ pub fn run(ctx: &Ctx) -> (Stats, Spec) {
             ("tables_filter_false".into(), 100, "filter False hardly exercised".into()),
             ("v_outputs".into(), 100, "-v hardly exercised".into()),
             ("channel_comparisons".into(), 100, "channels not compared".into()),
+            ("long_outputs".into(), 10, "outputs beyond one buffer not exercised".into()),
             ("benchmark_comparisons".into(), 50, "-b not compared".into()),
             ("rows_checked".into(), 3_000, "too few rows".into()),
             ("wide_tables".into(), 20, "tables with many columns not exercised".into()),
